@@ -19,32 +19,37 @@ CONFIG = {'assumptions': [
     'section names compared as bytes (ASCII names)',
     '.eh_frame of a file reached through a debug link is not compared with the stripped file (objcopy --only-keep-debug '
     'turns it into NOBITS by construction)']}
-LEVEL = {'text': 'Machine-checked, 18 theorems closed under the global context, universally quantified over the zlib oracle, '
-                 'the loader and the reader of linked files: the view handed to DWARFInfo (configuration, 19 section slots with '
-                 'content / size / address / relocation section, supplementary view) of ANY abstract file is unchanged by gABI '
-                 'compression of any set of plainly stored sections (any reserved word, alignment, offset, following bytes, any '
-                 'complete zlib stream) [C11_view_invariant_gabi, C11_view_depends_on_payloads] and by the legacy .zdebug framing '
-                 'decided per name with relocation sections renamed along, mixed namings included [C11_view_invariant_zgnu; the '
-                 'per-name hypothesis is shown necessary by an Example]; through a .gnu_debuglink with the right CRC it IS the '
-                 'linked file\'s view, with a wrong CRC there is none, unfollowed links are inert [C11_view_through_debuglink, '
-                 'C11_debuglink_crc_mismatch_no_view, C11_debuglink_inert]; .gnu_debugaltlink and .debug_sup give the same '
-                 'supplementary view = the supplementary file\'s own view, None without loader/follow_links [C11_view_altlink, '
-                 'C11_view_debugsup]; the model\'s has_dwarf_info equals the presence formula on every file the model of ELFFile() '
-                 'returns [C11_presence_exact(_img)]; bitwise CRC-32 = polynomial division, chunked = whole file; the model raises '
-                 'ELFError on CRC mismatch, AssertionError on bad legacy framing, ELFCompressionError when the declared size differs '
-                 'from the inflated size in either direction (+ the pre-d25be29 acceptance as a witnessed theorem). '
-                 'NOT proved, pinned by the correspondence on every generated case (impl = model = spec three-way): that the '
-                 'model of get_dwarf_info computes the specification\'s debug_view; the DWARF dump being a function of the view '
-                 '(full DIE/line/CFI dumps of re-encoded compiler-produced seeds are compared).',
-         'design_ref': '4.11', 'technique': 'Coq proof (layout round trip for Elf_Chdr, list/name lemmas, case analysis of the renaming) '
-                                            '+ extracted-model correspondence',
-         'note': 'Trusted: Coq kernel, extraction, harness, zlib as an oracle with the stated law (satisfiable: the stored codec, '
+LEVEL = {'text': 'Machine-checked, 23 theorems closed under the global context, universally quantified over the zlib oracle, '
+                 'the loader and the reader of linked files. Specification level: the view handed to DWARFInfo (configuration, 19 '
+                 'section slots with content / size / address / relocation section, supplementary view) of ANY abstract file is '
+                 'unchanged by gABI compression of any set of plainly stored sections (any reserved word, alignment, offset, following '
+                 'bytes, any complete zlib stream) [C11_view_invariant_gabi], by the legacy .zdebug framing decided per name with '
+                 'relocation sections renamed along, mixed namings included [C11_view_invariant_zgnu; the per-name hypothesis is shown '
+                 'necessary by an Example], by dropping the contents of every section the reader never asks for '
+                 '[C11_view_invariant_keep_debug], and in general depends only on names, relocation roles and the payloads of the '
+                 'observed names [C11_view_depends_on_payloads]; through a .gnu_debuglink with the right CRC it IS the linked file\'s '
+                 'view, with a wrong CRC there is none, unfollowed links are inert [C11_view_through_debuglink, '
+                 'C11_debuglink_crc_mismatch_no_view, C11_debuglink_inert]; .gnu_debugaltlink and .debug_sup give the same supplementary '
+                 'view = the supplementary file\'s own view, None without loader/follow_links [C11_view_altlink, C11_view_debugsup]. '
+                 'Model level: the transliteration of get_dwarf_info returns a DWARFInfo whose view is the specification\'s debug_view '
+                 'and raises exactly when there is none, for every file the model of ELFFile() returns [C11_model_refines_spec], hence '
+                 'the invariance holds of the model [C11_model_view_invariant_gabi/_zgnu, C11_transforms_constructible]; has_dwarf_info = '
+                 'the presence formula [C11_presence_exact(_img)]; bitwise CRC-32 = polynomial division, chunked = whole file; the model '
+                 'raises ELFError on CRC mismatch, AssertionError on bad legacy framing, ELFCompressionError when the declared size '
+                 'differs from the inflated size in either direction (+ the pre-d25be29 acceptance as a witnessed theorem). '
+                 'Pinned by correspondence, not proved: model = code (impl/model/spec compared three ways on every case); parse_image '
+                 'vs ELFFile(); applying relocations (C08); the DWARF dump being a function of the view (full DIE/line/CFI dumps of '
+                 're-encoded compiler-produced seeds are compared).',
+         'design_ref': '4.11', 'technique': 'Coq proof (layout round trip for Elf_Chdr, list/name lemmas, case analysis of the renaming, '
+                                            'refinement model -> spec by induction on the link depth) + extracted-model correspondence',
+         'note': 'Trusted: Coq kernel, extraction, harness, zlib as an oracle with the stated laws (jointly satisfiable: the stored codec, '
                  'Example C11_ex_oracle_law_satisfiable). No axioms. In-domain for the re-encoding kinds = the extracted Coq hypotheses '
-                 '(gabi_choice_ok / zgnu_choice_ok && plain_names && no_phantom) hold.'}
+                 '(gabi_choice_ok / zgnu_choice_ok && plain_names && no_phantom) hold. Model drift (out of domain): Section constructors '
+                 'of SHT_HASH/SYMTAB... that raise ELFError while the section name map is built are not modelled (C19).'}
 RULE = ('cases: every seed object under seeds/c11 and every ELF under test/testfiles_for_unittests, plain and re-encoded '
         '(gABI and legacy framing built by the Coq encoders at zlib levels 0-9, all/some/only-shrinking sections; objcopy '
         'zlib / zlib-gnu / only-keep-debug + debuglink variants; debug links with right and wrong CRC, with and without a '
-        'loader, follow_links on/off; .gnu_debugaltlink / .debug_sup), synthetic images in all class/byte-order '
+        'loader, follow_links on/off; .gnu_debugaltlink / .debug_sup; keep-debug = unobserved sections made SHT_NOBITS), synthetic images in all class/byte-order '
         'combinations, presence truth table, malformed framings. distinct = hash(kind, abstract); non-trivial = at least '
         'one section re-encoded, a link followed, or an error case')
 
